@@ -3,8 +3,10 @@
 // Generates random procedures of the language of lean/Csvq/Model/Scope.lean (nesting <= 6, variable names
 // from a pool of 4, loops bounded by private counters, every function call passes a decreasing budget),
 // renders them as csvq program text, runs them through the real Processor in-process and records
-//   op line   c15.run <fuel> <program, prefix token encoding of lean/Csvq/Drive/C15.lean>
-//   answer    <flow> | <PRINT trace> | <variables of every block of the session scope> | <functions …>
+//
+//	op line   c15.run <fuel> <program, prefix token encoding of lean/Csvq/Drive/C15.lean>
+//	answer    <flow> | <PRINT trace> | <variables of every block of the session scope> | <functions …>
+//
 // and checks laws of the property directly on the implementation (see the law* functions).
 package main
 
@@ -12,6 +14,7 @@ import (
 	"context"
 	"fmt"
 	"os"
+	"runtime/pprof"
 	"sort"
 	"strconv"
 	"strings"
@@ -500,7 +503,7 @@ func (p *pgen) stmt(c genCtx) []*Stmt {
 			used[x] = true
 			pr := Param{X: x}
 			if i >= req {
-				pr.Dflt = p.expr(cc, 1, p.g.Intn(6) == 0)
+				pr.Dflt = p.expr(cc, 1, false) // no calls: a default is evaluated before the budget guard of the body
 			}
 			s.Params = append(s.Params, pr)
 			cc.visible[x] = true
@@ -649,6 +652,8 @@ func (p *pgen) program(c genCtx) []*Stmt {
 }
 
 func genProgram(g *hc.Gen, noDisp bool) (*pgen, []*Stmt) {
+	t0 := time.Now()
+	defer func() { tGen += time.Since(t0) }()
 	for {
 		p := newPgen(g)
 		prog := p.program(topCtx(noDisp))
@@ -753,6 +758,8 @@ var flowName = map[query.StatementFlow]string{query.Terminate: "N", query.Exit: 
 
 // exec runs program text on pr (which keeps its scope between calls) and reports what can be observed
 func exec(pr *hc.Proc, sql string) result {
+	t0 := time.Now()
+	defer func() { tExec += time.Since(t0) }()
 	pr.Stdout.Reset()
 	var r result
 	stmts, _, err := parser.Parse(sql, "", false, pr.P.Tx.Flags.AnsiQuotes)
@@ -799,7 +806,11 @@ func (r result) line() string {
 	return r.flow + " | " + joinOr(r.out, "-") + " | " + r.vars + " | " + r.funs
 }
 
+var tNewProc, tExec, tGen time.Duration
+
 func newProc() *hc.Proc {
+	t0 := time.Now()
+	defer func() { tNewProc += time.Since(t0) }()
 	pr := hc.NewProc("")
 	_ = pr.P.Tx.SetFlag(option.QuietFlag, true) // only PRINT writes to stdout ("1 record inserted" etc. are notices)
 	return pr
@@ -938,7 +949,7 @@ func globalVar(pr *hc.Proc, x int) string {
 }
 
 // random programs: an inner declaration of a name shadows the outer variable and does not change it
-func lawShadowRandom(g *hc.Gen, o *hc.Out) {
+func lawShadowRandom(g *hc.Gen, o *hc.Out, pr *hc.Proc) {
 	prePg, pre := genProgram(g, true)
 	pg := newPgen(g)
 	pg.budget = 10
@@ -961,8 +972,7 @@ func lawShadowRandom(g *hc.Gen, o *hc.Out) {
 	if pg.cost(append(append([]*Stmt{}, pre...), body...)) > 60000 {
 		return
 	}
-	pr := newProc()
-	defer pr.Close()
+	pr.P = query.NewProcessor(pr.P.Tx)
 	r0 := exec(pr, sqlProgram(pre))
 	before := globalVar(pr, x)
 	blk := "IF TRUE THEN VAR " + vname(x) + " := 77; " + sqlProgram(body) + "END IF;"
@@ -987,22 +997,25 @@ func lawShadowRandom(g *hc.Gen, o *hc.Out) {
 }
 
 // appending a declaration at the very end of any inner block is invisible: nothing runs while it is in scope
-func lawLateDecl(g *hc.Gen, o *hc.Out, prog []*Stmt, base result) {
-	type site struct{ list *[]*Stmt }
+func lawLateDecl(g *hc.Gen, o *hc.Out, pr *hc.Proc, prog []*Stmt, base result) {
+	type site struct {
+		list   *[]*Stmt
+		params []Param // a function's parameters live in the block of its body
+	}
 	var sites []site
 	var walk func(ss []*Stmt)
 	walk = func(ss []*Stmt) {
 		for _, s := range ss {
 			for i := range s.Branches {
-				sites = append(sites, site{&s.Branches[i].Body})
+				sites = append(sites, site{&s.Branches[i].Body, nil})
 				walk(s.Branches[i].Body)
 			}
 			if s.K == 'I' && len(s.Els) > 0 {
-				sites = append(sites, site{&s.Els})
+				sites = append(sites, site{&s.Els, nil})
 				walk(s.Els)
 			}
 			if s.K == 'W' || s.K == 'F' {
-				sites = append(sites, site{&s.Body})
+				sites = append(sites, site{&s.Body, s.Params})
 				walk(s.Body)
 			}
 		}
@@ -1018,6 +1031,9 @@ func lawLateDecl(g *hc.Gen, o *hc.Out, prog []*Stmt, base result) {
 			declaredHere[s.X] = true
 		}
 	}
+	for _, pr := range st.params {
+		declaredHere[pr.X] = true
+	}
 	var cand []int
 	for x := 0; x < poolVars; x++ {
 		if !declaredHere[x] {
@@ -1028,19 +1044,13 @@ func lawLateDecl(g *hc.Gen, o *hc.Out, prog []*Stmt, base result) {
 		return
 	}
 	x := cand[g.Intn(len(cand))]
-	// a function's parameters live in the block of its body
 	old := *st.list
 	*st.list = append(append([]*Stmt{}, old...), &Stmt{K: 'D', X: x, E: lit(99)})
 	sql := sqlProgram(prog)
 	*st.list = old
-	pr := newProc()
+	pr.P = query.NewProcessor(pr.P.Tx)
 	r := exec(pr, sql)
-	pr.Close()
 	o.Count("law:late_decl")
-	if r.code == query.ErrorVariableRedeclared && base.code != query.ErrorVariableRedeclared {
-		o.Count("law:late_decl_param_clash") // the block is a function body and x one of its parameters
-		return
-	}
 	if r.line() != base.line() {
 		o.Law("late_shadow_invisible", lawCase{"late_shadow_invisible", []string{sqlProgram(prog), sql}, r.line(), base.line()})
 	}
@@ -1120,18 +1130,31 @@ func staticShadow(prog []*Stmt) bool {
 	return walk(prog, map[int]bool{})
 }
 
+var debug = os.Getenv("C15_DEBUG") != ""
+
 func runC15(seed int64, n int, dir string, _ []string) {
 	g := hc.NewGen(seed)
 	o := hc.NewOut(dir)
 	defer o.Close()
+	if pf := os.Getenv("C15_PROF"); pf != "" {
+		f, _ := os.Create(pf)
+		_ = pprof.StartCPUProfile(f)
+		defer pprof.StopCPUProfile()
+	}
 
+	shared := newProc()
+	defer shared.Close()
 	lawConcurrent(g, o)
 	for i := 0; i < n; i++ {
 		pg, prog := genProgram(g, false)
 		sql := sqlProgram(prog)
-		pr := newProc()
-		r := exec(pr, sql)
-		pr.Close()
+		if debug {
+			fmt.Fprintf(os.Stderr, "%d cost=%d %s\n", i, pg.cost(prog), sql)
+		}
+		// one session for all generated programs, a new Processor (new global scope, taken from csvq's pool of
+		// blocks like every other scope) per program
+		shared.P = query.NewProcessor(shared.P.Tx)
+		r := exec(shared, sql)
 		if r.fatal {
 			o.Law("generator_syntax", lawCase{"generator_syntax", []string{sql}, r.flow, "parses"})
 			continue
@@ -1167,14 +1190,17 @@ func runC15(seed int64, n int, dir string, _ []string) {
 		}
 
 		if i%4 == 0 {
-			lawLateDecl(g, o, prog, r)
+			lawLateDecl(g, o, shared, prog, r)
 		}
 		if i%4 == 1 {
-			lawShadowRandom(g, o)
+			lawShadowRandom(g, o, shared)
 		}
 		if i%8 == 2 {
 			lawsObjects(g, o)
 		}
+	}
+	if debug {
+		fmt.Fprintln(os.Stderr, "newProc", tNewProc, "exec", tExec, "gen", tGen)
 	}
 	if os.Getenv("VERIF_TIER") == "thorough" {
 		for i := 0; i < 5; i++ {
